@@ -258,3 +258,12 @@ func ParseXML(data []byte) (*Node, []XMLProblem) {
 	}
 	return root, probs
 }
+
+// ShownText is the element's character data as a consumer shows it: leading and trailing white space only counts
+// when the element itself says xml:space="preserve".
+func (n *Node) ShownText() string {
+	if v, ok := n.Attr(NsXML, "space"); ok && v == "preserve" {
+		return n.Text
+	}
+	return strings.TrimSpace(n.Text)
+}
